@@ -110,6 +110,12 @@ def unit(item):
         if tree.capped:
             p.add(caps_hit=1)
         bound = spec.step_bound(inst)
+        for h, e in tree.crashes:
+            p.violation(
+                sig(PID, spec, f"crash:{type(e).__name__}", "mask_admitted_step"),
+                trace_replay_record(spec, iid, inst, h),
+                f"{spec.key} {iid}: the mask-admitted step {list(h)} raises {type(e).__name__}: {str(e)[:100]}",
+            )
         for h in tree.dead:
             p.violation(
                 sig(PID, spec, "mask", "dead_end"),
